@@ -25,8 +25,13 @@ RULE = (
 ASSUMPTIONS = [
     "differential oracle: the standalone run (itself checked against the reference interpreter by C01/C03)",
     "if_all_agree is compared only when every member scans to the end of the file (decision of a finished member is unspecified)",
-    "printouts are compared only when no member collected errors (error text embeds instance-specific ids)",
+    "printouts are compared exactly when no member collected errors or the configured policy has no 'print'; otherwise by their number (printed error text embeds instance-specific ids)",
+    "the [errors] policy of config.ini is drawn per case (without 'raise') and is the same for the standalone and the group runs",
 ]
+
+
+# [errors] csvpath = ... of config.ini (no 'raise': an aborted group run is C18's subject)
+POLICIES = [["collect", "print"], ["collect", "print"], ["collect"], ["collect", "fail"], ["print", "fail"], ["collect", "stop"], ["quiet", "collect"]]
 
 
 def budget(tier):
@@ -53,6 +58,9 @@ def _case(draw):
             modes.append("return-mode: no-matches")
         if draw(st.integers(0, 5)) == 3:
             modes.append("unmatched-mode: keep")
+        if draw(st.integers(0, 4)) == 1:
+            # a run-time argument error on every scanned line (column 0 holds text): handled per the configured policy
+            prog["comps"].insert(draw(st.integers(0, len(prog["comps"]))), ["=", "ez", [], None, ["f", "add", [], [["hi", 0], ["t", 1]]]])
         members.append({"prog": prog, "scan": scan, "id": f"m{i}", "modes": modes})
     if draw(st.sampled_from([False, False, False, True])):
         # a data record repeated verbatim (identical rows are legal CSV)
@@ -63,7 +71,8 @@ def _case(draw):
     order = draw(st.permutations(list(range(n))))
     members = [members[i] for i in order]
     return {"table": table, "members": members, "if_all_agree": draw(st.booleans()),
-            "delimiter": draw(st.sampled_from([",", ",", ",", ";", "|"]))}
+            "delimiter": draw(st.sampled_from([",", ",", ",", ";", "|"])),
+            "policy": draw(st.sampled_from(POLICIES))}
 
 
 def strategy(tier):
@@ -82,13 +91,15 @@ def run_case(case, sb):
     records = case["table"]["records"]
     members = case["members"]
     dl = case.get("delimiter", ",")
+    policy = case.get("policy") or ["collect", "print"]
+    sb.write_config(policy)
     rel = sb.write_csv("f.csv", records, delimiter=dl)
     # reference: standalone runs
     ref = []
     for m in members:
         r = real.run_path(member_text(m, rel), delimiter=dl)
         ref.append(r)
-    labels = [f"members:{len(members)}", f"delimiter:{dl}"]
+    labels = [f"members:{len(members)}", f"delimiter:{dl}", "policy:" + "+".join(policy)]
     if any(r["raised"] for r in ref):
         # a program the standalone run rejects is outside this property's relation
         return core.outcome(undefined=True, labels=["standalone-raised"])
@@ -96,7 +107,8 @@ def run_case(case, sb):
     if any_errors:
         labels.append("with-errors")
     ref_ids = [[(ln[0] if ln else None) for ln in r["lines"]] for r in ref]
-    to_end = all(m["scan"].endswith("*") for m in members)
+    # (a member the 'stop' policy halted at its first error is a finished member too)
+    to_end = all(m["scan"].endswith("*") for m in members) and not ("stop" in policy and any_errors)
     file_ids = [r[0] for r in records if r]
     union = [i for i in file_ids if any(i in ids for ids in ref_ids)]
     inter = [i for i in file_ids if all(i in ids for ids in ref_ids)]
@@ -126,8 +138,10 @@ def run_case(case, sb):
             for k in KEYS:
                 if o[k] != r[k]:
                     problems.append({"method": method, "member": m["id"], "field": k, "standalone": r[k], "group": o[k]})
-            if not any_errors and o["printouts"] != r["printouts"]:
+            if (not any_errors or "print" not in policy) and o["printouts"] != r["printouts"]:
                 problems.append({"method": method, "member": m["id"], "field": "printouts", "standalone": r["printouts"], "group": o["printouts"]})
+            elif len(o["printouts"]) != len(r["printouts"]):
+                problems.append({"method": method, "member": m["id"], "field": "number of printouts", "standalone": r["printouts"], "group": o["printouts"]})
             if method in ("collect_paths", "collect_by_line"):
                 if dl != ",":
                     # data.csv is always written in the default dialect: read it back that way
